@@ -271,4 +271,43 @@ def ptsEqualsDts (payload : Bytes) : Bool :=
         else isKeyType (b1 &&& 0x1F).toNat
     else false
 
+/-! ### `PTSEqualsDTS` once more, statement by statement with every index and slice expression
+checked (`none` = out-of-range access, or the loop did not stop within `len+1` iterations).
+`Props/Codec/H264Dec.lean` proves that it never is `none` and equals `ptsEqualsDts`. -/
+
+def ptsLoopC : Nat → Bytes → Option Bool
+  | 0, _ => none
+  | fuel + 1, payload =>
+    if payload.length < 2 then some false
+    else do
+      let hi ← idx? payload 0
+      let lo ← idx? payload 1
+      let size := hi.toNat * 256 + lo.toNat          -- uint16(payload[0])<<8 | uint16(payload[1])
+      let payload ← sliceFrom? payload 2             -- payload = payload[2:]
+      if size = 0 ∨ size > payload.length then some false
+      else do
+        let nalu ← sliceTo? payload size             -- payload[:size]
+        let payload ← sliceFrom? payload size        -- payload[size:]
+        let h ← idx? nalu 0                          -- nalu[0]
+        if isKeyType (h &&& 0x1F).toNat then some true
+        else if payload.length = 0 then some false
+        else ptsLoopC fuel payload
+
+def ptsEqualsDtsC (payload : Bytes) : Option Bool :=
+  if payload.length = 0 then some false
+  else do
+    let b0 ← idx? payload 0
+    let typ := (b0 &&& 0x1F).toNat
+    if isKeyType typ then some true
+    else if typ = CodecH26x.h264PtsStapA then do
+      let rest ← sliceFrom? payload 1
+      ptsLoopC (rest.length + 1) rest
+    else if typ = CodecH26x.h264PtsFuA then
+      if payload.length < 2 then some false
+      else do
+        let b1 ← idx? payload 1
+        if b1 >>> 7 ≠ 1 then some false
+        else some (isKeyType (b1 &&& 0x1F).toNat)
+    else some false
+
 end Rtsp.Codec.H264
